@@ -134,6 +134,12 @@ let handle (toks: string list) : string =
             Buffer.add_char buf ' ';
             Buffer.add_string buf (show s' (match r with Accepted -> "ok" | Refused -> "ref")); s') s0 ops in
       id ^ " " ^ Buffer.contents buf
+  | "deseq" :: id :: chunk :: hex :: [] ->
+      let d = hexarg hex in
+      let cs = desequence (nat_of_int (int_of_string chunk)) d in
+      id ^ " " ^ String.concat "," (List.map (fun c -> string_of_int (List.length c)) cs) ^ " " ^ string_of_int (List.length d) ^ " true " ^ hex_of_bytes (sequence cs)
+  | "dosbin" :: id :: addr :: hex :: [] -> id ^ " " ^ show_outcome (dos_pack_bin (hexarg hex) (n_of_int (int_of_string addr)))
+  | "dostok" :: id :: hex :: [] -> id ^ " " ^ show_outcome (dos_pack_tok (hexarg hex))
   | "crc32" :: id :: hex :: [] -> id ^ " " ^ string_of_int (int_of_n (crc32 N0 (hexarg hex)))
   | "crc16" :: id :: seed :: hex :: [] -> id ^ " " ^ string_of_int (int_of_n (crc16 (n_of_int (int_of_string seed)) (hexarg hex)))
   | "imdtrk" :: id :: _kind :: secsize :: nsec :: rest ->
